@@ -19,6 +19,10 @@ static inline struct vs_opt_date *vs_opt_date_assign(struct vs_opt_date *o, cons
 const char *g_in; size_t g_in_len; size_t g_add_calls;
 /* ghost: a scan for '=' ran into the end of the header text */
 bool g_no_eq;
+/* ghost: the attribute matched last was a flag (Secure/HttpOnly): whatever character follows the word is skipped */
+bool g_flag_last;
+/* an attribute has been consumed together with the ';' that ends it (or the text is used up) */
+#define ATTR_DONE(c) (POS(c) == LEN(c) || BYTE(c, POS(c) - 1) == ';')
 '''
 TYPES = dict(_s.TYPES)
 TYPES.update({'std::string': 'struct vs_astr', 'Pistache::RawStreamBuf<char>::Base': 'struct vs_streambuf',
@@ -83,14 +87,16 @@ FUNCTIONS = list(_s.FUNCTIONS) + [
         requires CUR_PRE(cursor) && FRESH(obj, sizeof(*obj)) && COOKIE_STR_ATTR(attr) && vs_exc == 0
         assigns POS(cursor), obj->path, obj->domain, vs_exc, g_hit_end
         ensures COOKIE_EXC_OK && OLD(POS(cursor)) <= POS(cursor) && POS(cursor) <= LEN(cursor)
-        ensures vs_exc == 0 ==> POS(cursor) >= OLD(POS(cursor)) + 1"""},
+        ensures vs_exc == 0 ==> POS(cursor) >= OLD(POS(cursor)) + 1
+        ensures vs_exc == 0 ==> (POS(cursor) == LEN(cursor) || BYTE(cursor, POS(cursor)) == ';')"""},
     {'q': AM, 'sig': 'std::optional<int> Pistache::Http::Cookie::*', 'c': 'AttributeMatcher_int_match', 'contract': """
         requires CUR_PRE(cursor) && FRESH(obj, sizeof(*obj)) && attr == offsetof(struct Pistache_Http_Cookie, maxAge) && vs_exc == 0
         assigns POS(cursor), obj->maxAge, vs_exc, g_hit_end
         ensures COOKIE_EXC_OK && OLD(POS(cursor)) <= POS(cursor) && POS(cursor) <= LEN(cursor)
         ensures vs_exc == 0 ==> POS(cursor) >= OLD(POS(cursor)) + 1
         # Max-Age: digits only, no overflow, never negative
-        ensures vs_exc == 0 ==> (obj->maxAge.has && obj->maxAge.v >= 0)"""},
+        ensures vs_exc == 0 ==> (obj->maxAge.has && obj->maxAge.v >= 0)
+        ensures vs_exc == 0 ==> (POS(cursor) == LEN(cursor) || BYTE(cursor, POS(cursor)) == ';')"""},
     {'q': AM + '::strntol', 'lambda': True, 'contract': """
         requires len <= MAXLEN && FRESH(str, len) && vs_exc == 0
         assigns vs_exc
@@ -105,13 +111,16 @@ FUNCTIONS = list(_s.FUNCTIONS) + [
         requires CUR_PRE(cursor) && FRESH(obj, sizeof(*obj)) && attr == offsetof(struct Pistache_Http_Cookie, expires) && vs_exc == 0
         assigns POS(cursor), obj->expires, vs_exc, g_hit_end
         ensures COOKIE_EXC_OK && OLD(POS(cursor)) <= POS(cursor) && POS(cursor) <= LEN(cursor)
-        ensures vs_exc == 0 ==> POS(cursor) >= OLD(POS(cursor)) + 1"""},
+        ensures vs_exc == 0 ==> POS(cursor) >= OLD(POS(cursor)) + 1
+        ensures vs_exc == 0 ==> (POS(cursor) == LEN(cursor) || BYTE(cursor, POS(cursor)) == ';')"""},
     {'q': MA, 'sig': 'std::optional<std::basic_string<char>> Pistache::Http::Cookie::*', 'c': 'match_attribute_string', 'contract': """
         requires CUR_PRE(cursor) && FRESH(obj, sizeof(*obj)) && len <= 16 && LIT_PRE(name, len) && COOKIE_STR_ATTR(attr) && vs_exc == 0
         assigns POS(cursor), obj->path, obj->domain, vs_exc, g_hit_end
         ensures COOKIE_EXC_OK && OLD(POS(cursor)) <= POS(cursor) && POS(cursor) <= LEN(cursor)
         ensures (vs_exc == 0 && RET) ==> POS(cursor) >= OLD(POS(cursor)) + len
-        ensures (vs_exc == 0 && !RET) ==> POS(cursor) == OLD(POS(cursor))"""},
+        ensures (vs_exc == 0 && !RET) ==> POS(cursor) == OLD(POS(cursor))
+        # a matched attribute is consumed together with the ';' that ends it
+        ensures (vs_exc == 0 && RET) ==> ATTR_DONE(cursor)"""},
     {'q': MA, 'sig': 'std::optional<int> Pistache::Http::Cookie::*', 'c': 'match_attribute_int', 'contract': """
         requires CUR_PRE(cursor) && FRESH(obj, sizeof(*obj)) && len <= 16 && LIT_PRE(name, len) && attr == offsetof(struct Pistache_Http_Cookie, maxAge) && vs_exc == 0
         assigns POS(cursor), obj->maxAge, vs_exc, g_hit_end
@@ -119,7 +128,9 @@ FUNCTIONS = list(_s.FUNCTIONS) + [
         ensures (vs_exc == 0 && RET) ==> POS(cursor) >= OLD(POS(cursor)) + len
         ensures (vs_exc == 0 && !RET) ==> POS(cursor) == OLD(POS(cursor))
         ensures (vs_exc == 0 && RET) ==> (obj->maxAge.has && obj->maxAge.v >= 0)
-        ensures (vs_exc == 0 && !RET) ==> (obj->maxAge.has == OLD(obj->maxAge.has) && obj->maxAge.v == OLD(obj->maxAge.v))"""},
+        ensures (vs_exc == 0 && !RET) ==> (obj->maxAge.has == OLD(obj->maxAge.has) && obj->maxAge.v == OLD(obj->maxAge.v))
+        # a matched attribute is consumed together with the ';' that ends it
+        ensures (vs_exc == 0 && RET) ==> ATTR_DONE(cursor)"""},
     {'q': MA, 'sig': 'bool Pistache::Http::Cookie::*', 'c': 'match_attribute_bool', 'contract': """
         requires CUR_PRE(cursor) && FRESH(obj, sizeof(*obj)) && len <= 16 && LIT_PRE(name, len) && COOKIE_BOOL_ATTR(attr) && vs_exc == 0
         assigns POS(cursor), obj->secure, obj->httpOnly, vs_exc, g_hit_end
@@ -132,20 +143,26 @@ FUNCTIONS = list(_s.FUNCTIONS) + [
         assigns POS(cursor), obj->expires, vs_exc, g_hit_end
         ensures COOKIE_EXC_OK && OLD(POS(cursor)) <= POS(cursor) && POS(cursor) <= LEN(cursor)
         ensures (vs_exc == 0 && RET) ==> POS(cursor) >= OLD(POS(cursor)) + len
-        ensures (vs_exc == 0 && !RET) ==> POS(cursor) == OLD(POS(cursor))"""},
+        ensures (vs_exc == 0 && !RET) ==> POS(cursor) == OLD(POS(cursor))
+        # a matched attribute is consumed together with the ';' that ends it
+        ensures (vs_exc == 0 && RET) ==> ATTR_DONE(cursor)"""},
     {'q': 'Pistache::Http::Cookie::Cookie'},
     {'q': 'Pistache::Http::Cookie::fromRaw', 'hoist_all': True,
+     'ghost': [('Pistache_skip_whitespaces', 'before', 'g_flag_last = 0;'), ('match_attribute_bool', 'after', 'if ($RET) g_flag_last = 1;')],
      'dead_ok': ['throw std::runtime_error("Invalid cookie, missing value");'], 'contract': """
         requires len <= MAXLEN && FRESH(str, len) && vs_exc == 0
-        assigns vs_exc, g_hit_end, g_app_src
+        assigns vs_exc, g_hit_end, g_app_src, g_flag_last
         # C17: malformed cookie text is rejected with an error, never a crash: every read lies in [str, str+len) (the text is an object of
         # exactly len bytes), the attribute loop terminates, and only std exceptions leave the function
         ensures COOKIE_EXC_OK
         # the name is the text before the first '=', the value starts right behind it
         ensures (vs_exc == 0 && RET.maxAge.has) ==> RET.maxAge.v >= 0""",
      'loops': ["""
-        assigns buf.vs_base_StreamBuf.pos, vs_exc, g_hit_end, g_app_src, cookie, $HOISTED
+        assigns buf.vs_base_StreamBuf.pos, vs_exc, g_hit_end, g_app_src, g_flag_last, cookie, $HOISTED
         invariant buf.vs_base_StreamBuf.pos <= buf.vs_base_StreamBuf.len && vs_exc == 0 && (cookie.maxAge.has ==> cookie.maxAge.v >= 0)
+        # every attribute -- known or extension -- is consumed together with the ';' that ends it, so that the next attribute name starts
+        # behind the separator and never with it (flags excepted: the character behind the word is skipped unseen)
+        invariant buf.vs_base_StreamBuf.pos >= 1 && buf.vs_base_StreamBuf.pos <= buf.vs_base_StreamBuf.len && (g_flag_last || buf.vs_base_StreamBuf.pos == buf.vs_base_StreamBuf.len || buf.vs_base_StreamBuf.base[buf.vs_base_StreamBuf.pos - 1] == ';')
         decreases buf.vs_base_StreamBuf.len - buf.vs_base_StreamBuf.pos"""]},
     {'q': 'Pistache::Http::CookieJar::addFromRaw', 'hoist_all': True,
      'ghost': [('Pistache_match_until_c', 'after', "if ($0 == '=' && !$RET) g_no_eq = 1;")],
